@@ -4,8 +4,6 @@ package verifsim
 
 import (
 	"fmt"
-	"testing"
-	"testing/synctest"
 	"time"
 )
 
@@ -37,7 +35,7 @@ func genC06(r *Rng, tier string, idx int) *Plan {
 // loginsAt boots a fresh replica in a fresh bubble whose clock reads start+at and performs k first
 // requests at that very instant.
 func loginsAt(spec *WorldSpec, at time.Duration, k int, cookie string) (out []idents) {
-	synctest.Test(curT, func(t *testing.T) {
+	inBubble(func() {
 		w := NewWorld(spec, 1, 0, nil)
 		defer w.Close()
 		w.Boot()
